@@ -786,7 +786,12 @@ impl<'a> BInterp<'a> {
                                 }
                                 self.flags.shortfall = true;
                                 self.st.classes[7] += 1;
-                                // cursor untouched: the model is left as is and observe() compares
+                                // "Err{..} leaving the cursor untouched": the model is left as is; the tree must still stand where it stood
+                                let root = self.root.as_ref().unwrap();
+                                let now = catch_unwind(AssertUnwindSafe(|| (root.remaining(), root.chunk().first().copied()))).ok();
+                                if now != Some((rem, rest.first().copied())) {
+                                    self.v("C10", "try_get-err-moved-the-cursor", format!("try_get_{} returned Err with {} bytes remaining; afterwards remaining() / first byte = {:?}", g.name, rem, now));
+                                }
                             }
                         }
                         Err(_) => self.v("C10", "try_get-panicked", format!("try_get_{} panicked ({} remaining)", g.name, rem)),
@@ -1058,6 +1063,22 @@ impl<'a> BInterp<'a> {
             } else {
                 self.st.panics += 1;
                 btr!(self, "    -> panicked (expected)");
+                if digest_mode() {
+                    // no statement says what the buffer looks like after a contract panic, but whatever it is, it must be the
+                    // same in every configuration (C16): fold remaining() and the start of chunk() into the digest
+                    if let Some(root) = self.root.as_ref() {
+                        let obs = catch_unwind(AssertUnwindSafe(|| {
+                            let ch = root.chunk();
+                            let mut h = root.remaining() as u64 ^ ((ch.len() as u64) << 32);
+                            for &b in ch.iter().take(16) {
+                                h = h.wrapping_mul(131).wrapping_add(b as u64);
+                            }
+                            h
+                        }))
+                        .unwrap_or(0xDEAD);
+                        self.mix(obs);
+                    }
+                }
             }
             // the state after a contract panic is unspecified: the case ends here
             self.ended = true;
